@@ -447,6 +447,12 @@ def _P(n, d):
 
 # fixed programs (run before the random ones): nested DAGs whose defaulted parameters are bound positionally
 CORPUS = [
+    # sub(v, on=True) whose node is flagged by `on`, embedded as sub(v, on, twz_active=gate): refused at build today; if it
+    # is ever accepted the node runs only when BOTH flags are truthy
+    dict(name="p", params=[_P("a0", None), _P("b0", None), _P("c0", None)], funs=[_fun(0), _fun(1)],
+         stmts=[dict(op="sub", d=0, args=[["param", 0], ["param", 1]], active=["param", 2])],
+         ret=dict(shape="single", items=[["var", 0, []]]), fails=[], maxc=2, is_async=False,
+         subs=[_sub("p_s0", [_P("a0", None), _P("z0", [1, True])], 10, [dict(op="call", f=0, args=[["param", 0]], kwargs={}, active=["param", 1])], dict(shape="single", items=[["var", 0, []]]))]),
     # ONE nested DAG embedded at two call sites with different arguments (refused at build today: F12; if it is ever
     # accepted, every embedding has its own nodes and its own executions)
     dict(name="p", params=[_P("a0", None), _P("b0", None)], funs=[_fun(0), _fun(1)],
@@ -546,6 +552,10 @@ def run(pid, tier, seed, res, p_sub=None, p_flag=None, only=None):
                 for p_ in ["C01"] + (["C20"] if has_subs(prog) else []):
                     res.hit(p_, "monitor", "value(s) %s were deep-copied on their way through the DAG: a node (or the caller) then holds a different object than in the plain function, where arguments travel by reference" % (r["copied"][:3],), dict(base, kind="monitor"))
             msg = compare(r)
+            if msg is not None and r["impl"][0] == "build-raise" and isinstance(r["impl"][1], RuntimeError) and "already has an activation" in str(r["impl"][1]):
+                # the documented refusal of `sub(..., twz_active=g)` when a node inside sub carries a flag of its own
+                dist["refused_flag_on_flagged_inner_node"] += 1
+                msg = None
             if msg is not None:
                 props_ = ["C01"]
                 if has_subs(prog):
